@@ -418,7 +418,7 @@ pub fn run(r: &mut Runner) {
     // ---- (hi, lo) validity alphabet through the deserializer: every exponent of hi, lo at every threshold
     let mut his: Vec<f64> = vec![];
     let fr: Vec<u64> = vec![0, 1, (1u64 << 52) - 1, (1u64 << 52) - 2, 1u64 << 51];
-    for e in (-1022..=1023).step_by(if quick { 3 } else { 1 }) {
+    for e in (-1022..=1023).step_by(if quick { 3 } else { 1 }).chain([-1021, -1020, -970, -969, 1021, 1022, 1023]) {
         for &f in &fr {
             for s in [false, true] {
                 his.push(mk_f64(s, e, f).unwrap());
@@ -445,7 +445,7 @@ pub fn run(r: &mut Runner) {
     r.par("deserialize: (hi, lo) pairs at every threshold", nh.div_ceil(64), 0, |c, l| {
         for i in (c * 64)..((c + 1) * 64).min(nh) {
             let a = his[i];
-            let mut los: Vec<f64> = vec![0.0, -0.0, f64::INFINITY, f64::NEG_INFINITY, f64::NAN, 5e-324, -5e-324, a, -a];
+            let mut los: Vec<f64> = vec![0.0, -0.0, f64::INFINITY, f64::NEG_INFINITY, f64::NAN, 5e-324, -5e-324, a, -a, f64::MAX, f64::MIN, 1e300, -1e300, 2f64.powi(971), -2f64.powi(971)];
             if a.is_finite() && a != 0.0 {
                 let e = crate::grid::exp_of(a);
                 for j in -2..=1 {
